@@ -145,42 +145,59 @@ theorem safe_of_inv1 (g : Ghost) (st : State) (r : CReq) (h1 : Inv1 g st)
 
 /-! ### history-level theorems -/
 
+/-- a request the worker cannot read changes neither beliefs nor workers: the invariants
+    survive the ghost update -/
+theorem inv_lost (g : Ghost) (st : State) (r : CReq) (h1 : Inv1 g st) (h2 : Inv2 g st) :
+    Inv1 (g.supplyAll r.slots) (stepCompileLost st r).1 ∧
+    Inv2 (g.supplyAll r.slots) (stepCompileLost st r).1 := by
+  constructor
+  · intro i σ x hx
+    obtain ⟨hb, ha⟩ := stepCompileLost_same st r i
+    rw [hb σ] at hx; rw [ha]
+    rcases h1 i σ x hx with h | h
+    · exact Or.inl h
+    · exact Or.inr ((supplyAll_slots g r σ).1 x h)
+  · intro i σ x hx
+    rw [(stepCompileLost_same st r i).1 σ] at hx
+    exact inv2_carry g r σ x (h2 i σ x hx)
+
 theorem noReturn_exec (env : Env) (h : List Req) :
-    ∀ (g : Ghost) (st : State), Inv1 g st → Inv2 g st → NoLostRequest h →
-      ∀ q, NoReturnFrom g (h ++ [q]) →
+    ∀ (g : Ghost) (st : State), Inv1 g st → Inv2 g st → ∀ q, NoReturnFrom g (h ++ [q]) →
       ∃ g', Inv1 g' (exec env st h) ∧ Inv2 g' (exec env st h) ∧ NoReturnFrom g' [q] := by
   induction h with
-  | nil => intro g st h1 h2 _ q hq; exact ⟨g, h1, h2, hq⟩
+  | nil => intro g st h1 h2 q hq; exact ⟨g, h1, h2, hq⟩
   | cons x xs ih =>
-    intro g st h1 h2 hr q hq
-    have hr' : NoLostRequest xs := fun q' hq' => hr q' (by simp [hq'])
+    intro g st h1 h2 q hq
     cases x with
     | compile r =>
       simp only [List.cons_append, NoReturnFrom] at hq
-      obtain ⟨i1, i2⟩ := inv_compile env g st r h1 h2
       simp only [exec, step]
-      rw [stepCompile_of_read env st r (hr (.compile r) (by simp))]
-      exact ih _ _ i1 i2 hr' q hq.2
+      by_cases hr : r.out = .requestUnreadable
+      · obtain ⟨i1, i2⟩ := inv_lost g st r h1 h2
+        rw [stepCompile_of_lost env st r hr]
+        exact ih _ _ i1 i2 q hq.2
+      · obtain ⟨i1, i2⟩ := inv_compile env g st r h1 h2
+        rw [stepCompile_of_read env st r hr]
+        exact ih _ _ i1 i2 q hq.2
     | tx r =>
       simp only [List.cons_append, NoReturnFrom] at hq
       obtain ⟨i1, i2⟩ := inv_tx env g st r h1 h2
-      exact ih _ _ i1 i2 hr' q hq.2
+      exact ih _ _ i1 i2 q hq.2
 
 /-- a request the worker cannot read compiles nothing -/
 theorem usedSupplied_of_run (env : Env) (st : State) (r : CReq)
     (h : (stepCompileRun env st r).2.usedSupplied r) : (stepCompile env st r).2.usedSupplied r := by
   by_cases hl : r.out = .requestUnreadable
   · rw [stepCompile_of_lost env st r hl]
-    obtain ⟨_, _, _, hu, _⟩ := stepCompileLost_spec st r
-    intro u hu'; rw [hu] at hu'; cases hu'
+    intro u hu'; rw [(stepCompileLost_spec st r).2.1] at hu'; cases hu'
   · rw [stepCompile_of_read env st r hl]; exact h
 
 /-- C17_used under "identities never come back" -/
 theorem used_noReturn (env : Env) (init : Side) (pre : List Req) (r : CReq)
-    (hr : NoLostRequest pre) (h : NoReturn init (pre ++ [.compile r])) :
+    (h : NoReturn init (pre ++ [.compile r])) :
     (stepCompile env (exec env (initState init) pre) r).2.usedSupplied r := by
   obtain ⟨i1, i2⟩ := inv_init init
-  obtain ⟨g', h1, _, hq⟩ := noReturn_exec env pre _ _ i1 i2 hr _ h
+  obtain ⟨g', h1, _, hq⟩ := noReturn_exec env pre _ _ i1 i2 _ h
   simp only [NoReturnFrom] at hq
   apply usedSupplied_of_run
   intro u hu
@@ -199,10 +216,10 @@ theorem txRoot_of (env : Env) (st : State) (r : TReq)
   · rw [h3] at hs; cases hs; rfl
 
 theorem txRoot_noReturn (env : Env) (init : Side) (pre : List Req) (r : TReq)
-    (hr : NoLostRequest pre) (h : NoReturn init (pre ++ [.tx r])) :
+    (h : NoReturn init (pre ++ [.tx r])) :
     (stepTx env (exec env (initState init) pre) r).2.usedRoot r := by
   obtain ⟨i1, i2⟩ := inv_init init
-  obtain ⟨g', h1, _, hq⟩ := noReturn_exec env pre _ _ i1 i2 hr _ h
+  obtain ⟨g', h1, _, hq⟩ := noReturn_exec env pre _ _ i1 i2 _ h
   simp only [NoReturnFrom] at hq
   apply txRoot_of
   intro hb
@@ -211,25 +228,25 @@ theorem txRoot_noReturn (env : Env) (init : Side) (pre : List Req) (r : TReq)
   · exact absurd h hq.1
 
 /-- C17_belief: only status 2 can break "belief ⇒ actual" -/
-theorem agree_exec (env : Env) (init : Side) (h : List Req) (hl : NoStatus2 h)
-    (hr : NoLostRequest h) (w : Nat) : Agree (exec env (initState init) h w) :=
-  fun σ => agreeAt_exec env σ h _ (agreeAt_init init σ) hl hr w
+theorem agree_exec (env : Env) (init : Side) (h : List Req) (hl : NoStatus2 h) (w : Nat) :
+    Agree (exec env (initState init) h w) :=
+  fun σ => agreeAt_exec env σ h _ (agreeAt_init init σ) hl w
 
 theorem safe_of_agree (ws : WState) (r : CReq) (h : Agree ws) : Safe ws r :=
   fun _ p _ hbel => h p.1 p.2 hbel
 
 theorem used_noStatus2 (env : Env) (init : Side) (pre : List Req) (r : CReq)
-    (hl : NoStatus2 pre) (hr : NoLostRequest pre) :
+    (hl : NoStatus2 pre) :
     (stepCompile env (exec env (initState init) pre) r).2.usedSupplied r := by
   apply usedSupplied_of_run
   intro u hu
-  exact (compile_used_exact env _ r u hu).2 (safe_of_agree _ r (agree_exec env init pre hl hr r.w))
+  exact (compile_used_exact env _ r u hu).2 (safe_of_agree _ r (agree_exec env init pre hl r.w))
 
 theorem txRoot_noStatus2 (env : Env) (init : Side) (pre : List Req) (r : TReq)
-    (hl : NoStatus2 pre) (hr : NoLostRequest pre) :
+    (hl : NoStatus2 pre) :
     (stepTx env (exec env (initState init) pre) r).2.usedRoot r := by
   apply txRoot_of
-  exact agreeAt_exec env _ pre _ (agreeAt_init init _) hl hr r.w _
+  exact agreeAt_exec env _ pre _ (agreeAt_init init _) hl r.w _
 
 theorem lastLe_init (s : Side) (i : Nat) : LastLe (initState s i) := by
   intro x hx; simp [initState] at hx
@@ -345,9 +362,8 @@ theorem stepCompileMemo_faithful (memo : Tok → Tok) (h : MemoFaithful memo) (e
 theorem compile_used_exact' (env : Env) (st : State) (r : CReq) (u : Used)
     (h : (stepCompile env st r).2.used = some u) : u = r.supplied ↔ Safe (st r.w) r := by
   by_cases hl : r.out = .requestUnreadable
-  · rw [stepCompile_of_lost env st r hl] at h
-    obtain ⟨_, _, _, hu, _⟩ := stepCompileLost_spec st r
-    rw [hu] at h; cases h
+  · rw [stepCompile_of_lost env st r hl, (stepCompileLost_spec st r).2.1] at h
+    cases h
   · rw [stepCompile_of_read env st r hl] at h
     exact compile_used_exact env st r u h
 
@@ -356,26 +372,27 @@ theorem syncFail_changes_nothing' (env : Env) (st : State) (r : CReq)
     (∀ σ, ((stepCompile env st r).1 i).bel.get σ = (st i).bel.get σ) ∧
       ((stepCompile env st r).1 i).act = (st i).act := by
   by_cases hl : r.out = .requestUnreadable
-  · rw [stepCompile_of_lost env st r hl] at h
-    obtain ⟨_, _, _, _, hres⟩ := stepCompileLost_spec st r
-    rw [hres] at h; cases h
+  · rw [stepCompile_of_lost env st r hl]
+    exact stepCompileLost_same st r i
   · rw [stepCompile_of_read env st r hl] at h ⊢
     exact syncFail_changes_nothing env st r h i
 
 theorem no_cbAssert' (env : Env) (st : State) (r : CReq) :
     (stepCompile env st r).2.res ≠ .cbAssert := by
   by_cases hl : r.out = .requestUnreadable
-  · rw [stepCompile_of_lost env st r hl]
-    obtain ⟨_, _, _, _, hres⟩ := stepCompileLost_spec st r
-    rw [hres]; intro h; cases h
+  · rw [stepCompile_of_lost env st r hl, (stepCompileLost_spec st r).2.2]
+    intro h; cases h
   · rw [stepCompile_of_read env st r hl]; exact no_cbAssert env st r
 
-theorem compile_bel_slot' (env : Env) (st : State) (r : CReq) (hl : r.out ≠ .requestUnreadable)
-    (σ : Slot) :
+theorem compile_bel_slot' (env : Env) (st : State) (r : CReq) (σ : Slot) :
     ((stepCompile env st r).1 r.w).bel.get σ = (st r.w).bel.get σ ∨
       ∃ t, (preargs (st r.w).bel r).at r.db σ = some t ∧
         ((stepCompile env st r).1 r.w).bel.get σ = some t ∧
         ((stepCompile env st r).1 r.w).act.get σ = some t := by
-  rw [stepCompile_of_read env st r hl]; exact compile_bel_slot env st r σ
+  by_cases hl : r.out = .requestUnreadable
+  · left
+    rw [stepCompile_of_lost env st r hl]
+    exact (stepCompileLost_same st r r.w).1 σ
+  · rw [stepCompile_of_read env st r hl]; exact compile_bel_slot env st r σ
 
 end EdbVerif.Sync
